@@ -482,3 +482,81 @@ int_harnesses! {
     NonZeroU64 => c07_accepts_nzu64, c07_valid_nzu64, c07_rt_nzu64, c07_kinds_nzu64;
     NonZeroUsize => c07_accepts_nzusize, c07_valid_nzusize, c07_rt_nzusize, c07_kinds_nzusize;
 }
+
+// ---------------------------------------------------------------- derived enums
+
+/// A derive-built enum (the `Enum` macro generates `EnumType::items` and delegates input
+/// coercion to `resolver_utils::parse_enum`, serialization to `enum_value`).
+#[derive(async_graphql::Enum, Copy, Clone, Eq, PartialEq)]
+pub enum Color {
+    A,
+    B,
+    C,
+}
+
+fn color_of(k: usize) -> Color {
+    match k {
+        0 => Color::A,
+        1 => Color::B,
+        _ => Color::C,
+    }
+}
+
+/// An enum value / a string of one ASCII letter is accepted iff it names a variant, and then
+/// coerces to that variant. `AS_STRING` selects the value kind (concrete per harness).
+fn enum_accepts<S: Src, const AS_STRING: bool>(s: &mut S) {
+    use async_graphql::{InputType, Name};
+    let b = s.u8();
+    s.assume((b >= b'A' && b <= b'Z') || (b >= b'a' && b <= b'z'));
+    let text = unsafe { String::from_utf8_unchecked(vec![b]) };
+    let v = if AS_STRING { Value::String(text) } else { Value::Enum(Name::new(&text)) };
+    let r = <Color as InputType>::parse(Some(v));
+    let expect = b == b'A' || b == b'B' || b == b'C';
+    cover!(expect, "a variant name");
+    cover!(!expect, "not a variant name");
+    match &r {
+        Ok(c) => assert!(expect && *c == color_of((b - b'A') as usize), "accepted a value that names no variant / wrong variant"),
+        Err(_) => assert!(!expect, "rejected a variant name"),
+    }
+    std::mem::forget(r);
+}
+pub fn enum_accepts_enum<S: Src>(s: &mut S) { enum_accepts::<S, false>(s) }
+pub fn enum_accepts_string<S: Src>(s: &mut S) { enum_accepts::<S, true>(s) }
+
+/// Every variant serializes to the enum value of its name and coerces back to itself;
+/// numbers, booleans and null are rejected.
+pub fn enum_roundtrip<S: Src>(s: &mut S) {
+    use async_graphql::InputType;
+    let k = s.below(3);
+    let c = color_of(k);
+    cover!(k == 2, "last variant");
+    let val = std::mem::ManuallyDrop::new(InputType::to_value(&c));
+    match &*val {
+        Value::Enum(n) => {
+            assert!(n.as_str().len() == 1 && n.as_str().as_bytes()[0] == b'A' + k as u8, "variant serializes to its name");
+            let r = <Color as InputType>::parse(Some(Value::Enum(n.clone())));
+            assert!(matches!(&r, Ok(d) if *d == c), "round trip changed the variant");
+            std::mem::forget(r);
+        }
+        _ => assert!(false, "an enum serializes to an enum value"),
+    }
+    let (num, _) = any_number(s);
+    let r = <Color as InputType>::parse(Some(Value::Number(num)));
+    assert!(r.is_err(), "an enum accepted a number");
+    std::mem::forget(r);
+    let r = <Color as InputType>::parse(Some(Value::Boolean(s.bool())));
+    assert!(r.is_err(), "an enum accepted a boolean");
+    std::mem::forget(r);
+    let r = <Color as InputType>::parse(Some(Value::Null));
+    assert!(r.is_err(), "an enum accepted null");
+    std::mem::forget(r);
+}
+
+pub mod enums {
+    use super::*;
+    harnesses! {
+        #[kani::unwind(5)] #[kani::stub(std::fmt::format, crate::stubs::fmt_stub)] c07_enum_accepts_enum => enum_accepts_enum;
+        #[kani::unwind(5)] #[kani::stub(std::fmt::format, crate::stubs::fmt_stub)] c07_enum_accepts_string => enum_accepts_string;
+        #[kani::unwind(5)] #[kani::stub(std::fmt::format, crate::stubs::fmt_stub)] c07_enum_roundtrip => enum_roundtrip;
+    }
+}
